@@ -74,25 +74,26 @@ def hint_cor0(ctx, S):
 
 def require_distinct(ctx, S):
     """exact mode: the textbook matrix of coincident conditioning points is singular (excluded by
-    the property); stated on the isometrised distances with the code's window"""
+    the property); stated on the isometrised distances with the code's window.
+    -> {(a, b): (require formula, distance term)}"""
+    out = {}
     if not S.exact:
-        return []
+        return out
     iso = S.model.isometrize(S.cpos)
-    out = []
     for a in range(S.n):
-        for b in range(a + 1, S.n):
-            out.append(ctx.require(ctx.gt(kc.dist(ctx, iso[:, a], iso[:, b]), 1e-8),
-                                   "non-singular system: distinct conditioning points"))
-            out.append(ctx.require(ctx.gt(kc.dist(ctx, iso[:, b], iso[:, a]), 1e-8),
-                                   "non-singular system: distinct conditioning points"))
+        for b in range(S.n):
+            if a != b:
+                d = kc.dist(ctx, iso[:, a], iso[:, b])
+                out[(a, b)] = (ctx.require(ctx.gt(d, 1e-8), "non-singular system: distinct conditioning points"), d)
     return out
 
 
 # ---------------------------------------------------------------------------------------
 # (1) the matrix handed to the inverse
 # ---------------------------------------------------------------------------------------
-def _matrix_obligations(ctx, S, prefix=""):
+def _matrix_obligations(ctx, S, prefix="", distinct=None):
     A, n, m = S.A, S.n, S.m
+    distinct = distinct or {}
     ctx.ensure(prefix + "inverse-called-exactly-once", len(S.inv_calls) == 1)
     ctx.ensure(prefix + "shape=system-size", ctx.shape_eq(A, (m, m)))
     if np.shape(A) != (m, m):
@@ -101,13 +102,18 @@ def _matrix_obligations(ctx, S, prefix=""):
     km = S.krige._krige_mat
     ctx.ensure(prefix + "stored-matrix=result-of-inverse", ctx.And(ctx.shape_eq(km, (m, m)), ctx.eq(km, S.K)))
     off = [(a, b) for a in range(n) for b in range(n) if a != b]
-    ctx.ensure(prefix + "cov-block.off-diagonal=covariance(iso-distance)",
-               ctx.And(*[ctx.eq(A[a, b], want[a, b]) for a, b in off]))
+    if distinct and ctx.mode == "sym":      # exact mode: BY the pair's distinctness require, distance generalised
+        for a, b in off:
+            ctx.ensure(prefix + "cov-block.off-diagonal=covariance(iso-distance)", ctx.eq(A[a, b], want[a, b]),
+                       using=[distinct[(a, b)][0]] + S.model_req, generalize=[distinct[(a, b)][1]])
+    else:
+        ctx.ensure(prefix + "cov-block.off-diagonal=covariance(iso-distance)",
+                   ctx.And(*[ctx.eq(A[a, b], want[a, b]) for a, b in off]))
     ctx.ensure(prefix + "cov-block.diagonal=C(0)+measurement-error",
                ctx.And(*[ctx.eq(A[a, a], want[a, a]) for a in range(n)]))
     h0 = hint_cor0(ctx, S)
     ctx.ensure(prefix + "cov-block.diagonal=var+error(sill-for-nugget-error)",
-               ctx.And(*[ctx.eq(A[a, a], S.model.var + S.errs[a]) for a in range(n)]), using=kc.assumptions(ctx))
+               ctx.And(*[ctx.eq(A[a, a], S.model.var + S.errs[a]) for a in range(n)]), using=[h0] + S.model_req)
     if S.unbiased:
         ctx.ensure(prefix + "unbiased-row-and-column=1",
                    ctx.And(*[ctx.And(ctx.eq(A[a, S.iu], 1), ctx.eq(A[S.iu, a], 1)) for a in range(n)]))
@@ -124,7 +130,11 @@ def _matrix_obligations(ctx, S, prefix=""):
     if m > n:
         ctx.ensure(prefix + "lower-right-block=0",
                    ctx.And(*[ctx.eq(A[i, j], 0) for i in range(n, m) for j in range(n, m)]))
-    ctx.ensure(prefix + "whole-matrix=textbook-matrix", ctx.eq(A, want))
+    if distinct and ctx.mode == "sym":
+        ctx.ensure(prefix + "whole-matrix=textbook-matrix", ctx.eq(A, want),
+                   using=[distinct[k][0] for k in distinct] + S.model_req, generalize=[distinct[k][1] for k in distinct])
+    else:
+        ctx.ensure(prefix + "whole-matrix=textbook-matrix", ctx.eq(A, want))
 
 
 @contract(P, "Krige._get_krige_mat/textbook-kriging-matrix", params=_mat_params(), functions=FN_MAT,
@@ -133,8 +143,7 @@ def _matrix_obligations(ctx, S, prefix=""):
 def krige_mat(ctx, variant, n, dim, err):
     kc.reset()
     S = kc.build(ctx, variant, n, dim, err=err)
-    require_distinct(ctx, S)
-    _matrix_obligations(ctx, S)
+    _matrix_obligations(ctx, S, distinct=require_distinct(ctx, S))
 
 
 @contract(P, "Krige._get_krige_mat/textbook-kriging-matrix(dim3)", params=_mat_params(True), functions=FN_MAT,
@@ -143,8 +152,7 @@ def krige_mat(ctx, variant, n, dim, err):
 def krige_mat3(ctx, variant, n, dim, err):
     kc.reset()
     S = kc.build(ctx, variant, n, dim, err=err)
-    require_distinct(ctx, S)
-    _matrix_obligations(ctx, S)
+    _matrix_obligations(ctx, S, distinct=require_distinct(ctx, S))
 
 
 def _my_inverse(mat):
@@ -183,19 +191,44 @@ def inv_routine(ctx, pseudo_inv, kind):
 # ---------------------------------------------------------------------------------------
 # (2) right-hand side, for the requested chunk only
 # ---------------------------------------------------------------------------------------
+class AI(list):
+    """formulas anisometrize(isometrize(x))_d = x_d of one target; .args: the (simplified) terms"""
+    args = ()
+
+
 def aniso_iso_lemma(ctx, S, pts, tag=""):
     """C12: anisometrize(isometrize(x)) = x, per target and coordinate (proved here for the real
-    matrices by ring normal form / nlsat); -> list over targets of lists of formulas"""
-    out = []
+    matrices by ring normal form / nlsat).  Stated on the SIMPLIFIED terms, which are the argument
+    terms that function applications (uninterpreted drift functions) hold.
+    -> list over targets of AI(list of formulas)"""
     if S.dim == 1 or not S.di:
-        return [[] for _ in pts]
+        return [AI() for _ in pts]
+    out = []
     tp = arr(ctx, [[pt[d] for pt in pts] for d in range(S.dim)])
     back = S.model.anisometrize(S.model.isometrize(tp))
-    base = S.model_req
     for c, pt in enumerate(pts):
-        out.append([lemma(ctx, "%sC12:anisometrize(isometrize(x))=x[target%d,axis%d]" % (tag, c, d),
-                          ctx.eq(back[d, c], pt[d]), using=base) for d in range(S.dim)])
+        row = AI()
+        row.args = []
+        for d in range(S.dim):
+            b = back[d, c]
+            if ctx.mode == "sym":
+                import z3
+                b = symrun.SymReal(z3.simplify(symrun.lift(b)))
+                row.args.append(b)
+            row.append(lemma(ctx, "%sC12:anisometrize(isometrize(x))=x" % tag, ctx.eq(b, pt[d]), using=S.model_req))
+        out.append(row)
     return out
+
+
+def drift_using(ctx, S, ai_c):
+    """BY clause of a functional-drift obligation: the C12 lemma of the target; for uninterpreted
+    drift functions their argument terms are generalised"""
+    if ctx.mode == "conc":
+        return {}
+    kw = {"using": list(ai_c) + S.model_req}
+    if S.fdrift is not None and ai_c.args:
+        kw["generalize"] = list(ai_c.args)
+    return kw
 
 
 def not_close(ctx, S, pts):
@@ -273,7 +306,7 @@ def _rhs_block_obligations(ctx, S, got, ks, cols, ai, name, nc=None):
     for j, c in enumerate(cols):
         for i in range(S.di):
             ctx.ensure(name + "functional-drift-rows=f_i(original-target-coordinates)",
-                       ctx.eq(got[S.if0 + i, j], ks[c][S.if0 + i]), using=ai[c] + S.model_req)
+                       ctx.eq(got[S.if0 + i, j], ks[c][S.if0 + i]), **drift_using(ctx, S, ai[c]))
     if S.de:
         ctx.ensure(name + "external-drift-rows=e_i(target)",
                    ctx.And(*[ctx.eq(got[S.ie0 + e, j], ks[c][S.ie0 + e]) for j, c in enumerate(cols)
@@ -358,6 +391,17 @@ def _call_params(thorough=False):
     return out
 
 
+def max_using(ctx, v):
+    """BY clause for `max(X, 0) >= 0`: no hypotheses, X generalised"""
+    if ctx.mode == "conc":
+        return {}
+    import z3
+    t = symrun.lift(v)
+    if z3.is_app(t) and t.decl().kind() == z3.Z3_OP_ITE:
+        return {"using": [], "generalize": [symrun.SymReal(t.arg(1))]}
+    return {}
+
+
 def raw_call(ctx, S, tp, te, **kw):
     return quiet(S.krige, tp, ext_drift=te, post_process=False, **kw)
 
@@ -388,8 +432,9 @@ def _rhs_lemmas(ctx, S, kv, ks, pts, ai, tag="", nc=None):
                          generalize=[nc[c][a][1] for a in range(S.n)])]
         for j in range(S.n, S.m):
             drift = S.if0 <= j < S.ie0
+            kw = drift_using(ctx, S, ai[c]) if drift else {"using": []}
             row.append(lemma(ctx, "%skernel-input.rhs=textbook-rhs%s" % (tag, "(drift-rows)" if drift else "(unbiased,ext-rows)"),
-                             ctx.eq(kv[j, c], ks[c][j]), using=(ai[c] + S.model_req) if drift else []))
+                             ctx.eq(kv[j, c], ks[c][j]), **kw))
         out.append(row)
     return out
 
@@ -428,7 +473,7 @@ def _call_body(ctx, variant, n, t, dim, err):
                    generalize=gen2 if ctx.mode == "sym" else None)
         ctx.ensure("krige_var=max(sill-k^T.K.k,0)", ctx.eq(var[c], ctx.m.max(sill - qf, 0)), using=R[c],
                    generalize=gen2 if ctx.mode == "sym" else None)
-        ctx.ensure("krige_var>=0", ctx.ge(var[c], 0))
+        ctx.ensure("krige_var>=0", ctx.ge(var[c], 0), **max_using(ctx, var[c]))
     ctx.ensure("stored:field,krige_var", ctx.And(ctx.eq(S.krige.field, field), ctx.eq(S.krige.krige_var, var),
                                                   ctx.eq(S.krige["field"], field)))
     # variants of the call on the same (unchanged) set-up
